@@ -48,6 +48,9 @@ def specs(tier, seed):
     add("GrandCanonical", "M", [["e", "E_transrot"], ["d", "D_rot"]], calc="zero", T=800.0, mu=-0.2)
     add("GrandCanonical", "A3", [["e", "E_trans*2"]], calc="zero", T=800.0, mu=-0.3)
     add("GrandCanonical", "A3", [["x", "D_ball+E_trans", 1.0, "gc"]], calc="zero", T=800.0, mu=-0.3)
+    # settings a user changes after construction: label for new atoms, accessible volume
+    add("GrandCanonical", "A3", [["e", "E_trans"], ["d", "D_ball"]], calc="zero", T=800.0, mu=-0.25, user_settings={"default_label": 0, "accessible_volume": 90.0})
+    add("GrandCanonical", "A3", [["e", "E_trans"]], calc="zero", T=800.0, mu=-0.3, user_settings={"default_label": -1, "accessible_volume": 400.0})
     return out
 
 
@@ -71,11 +74,12 @@ def observe(sim):
         "particle_counter": getattr(ctx, "number_of_exchange_particles", None),
         "generator_state": json.dumps(sim._rng.bit_generator.state, sort_keys=True, default=str),
         "step_count": int(sim.step_count),
+        "settings": {n: repr(np.asarray(getattr(sim, n), dtype=float).tolist()) for n in ("temperature", "pressure", "external_stress", "chemical_potential", "accessible_volume", "max_cycles") if hasattr(sim, n)},
     }
 
 
 def first_difference(a, b):
-    for k in ("step_count", "history", "atoms", "reference_energy", "labels", "particle_counter", "generator_state"):
+    for k in ("step_count", "settings", "history", "atoms", "reference_energy", "labels", "particle_counter", "generator_state"):
         if k == "atoms":
             d = atoms_diff(a["atoms"], b["atoms"])
             if d:
@@ -137,6 +141,12 @@ def task(spec):
     warnings.simplefilter("ignore")
     sysm = build(spec)
     sim = sysm.mc
+    us = spec.get("user_settings") or {}
+    if "accessible_volume" in us:
+        sim.accessible_volume = us["accessible_volume"]
+    if "default_label" in us:
+        for m in leaves_of(sim):
+            m.default_label = us["default_label"]
     buf = io.StringIO()
     try:
         sim.default_restart = buf
